@@ -460,7 +460,7 @@ func (g *globAnalysis) analyseFunc(fn *ssa.Function) bool {
 			case *ssa.MapUpdate:
 				set(x.Map, g.labelsOf(x.Key)|g.labelsOf(x.Value))
 			case *ssa.Return:
-				for i, r := range x.Results {
+				for i, r := range rr(x) {
 					if i < len(s.ret) {
 						l := g.labelsOf(r)
 						if s.ret[i]|l != s.ret[i] {
@@ -639,7 +639,7 @@ func (g *globAnalysis) localSinks(fn *ssa.Function) []sinkUse {
 			}
 		case *ssa.Return:
 			if exported {
-				for _, r := range x.Results {
+				for _, r := range rr(x) {
 					if l := g.labelsOf(r); l != 0 && !isPointerLikeType(r.Type()) {
 						out = append(out, sinkUse{x, "result of exported " + fn.Name(), l})
 					}
